@@ -775,7 +775,7 @@ def real_cell_geometry(P, lo, hi, i, Ni, scale, tets=None):
 # harness output
 # =====================================================================================================================
 def parse_variant(lines):
-    r = {"B": None, "T": None, "P": None, "R": {}, "W": {}, "C": {}, "F": {}, "L": {}, "D": {}, "X": None, "raw": lines}
+    r = {"B": None, "T": None, "P": None, "Q": None, "R": {}, "W": {}, "C": {}, "F": {}, "L": {}, "D": {}, "X": None, "raw": lines}
     for l in lines:
         f = l.split()
         t = f[1]
@@ -799,6 +799,8 @@ def parse_variant(lines):
             r["T"] = f[2:]
         elif t == "P":
             r["P"] = (int(f[2]), int(f[3]))
+        elif t == "Q":
+            r["Q"] = (int(f[2]), int(f[3]), bd(f[4]))
         elif t == "X":
             r["X"] = " ".join(f[2:])
     return r
@@ -855,6 +857,9 @@ def analyse_new(pr, N, stats, sample_cells=None, numeric=True):
         info["precondition"] = False
         return None, None, fnd, info
     info["precondition"] = True
+    if N.get("Q") is not None and N["Q"][1] > 0:
+        fnd.add("predicate_args", "during the construction %d coordinates handed to the exact predicates (%d calls) lie outside [1,2), e.g. %r: the predicates read the mantissa of a number "
+                                  "that is not the rescaled coordinate and decide about a different point" % (N["Q"][1], N["Q"][0], N["Q"][2]))
     if N["X"] is not None or len(N["C"]) != n:
         fnd.add("crash", "NewVoronoiGrid construction died (%s): %d of %d cells reported" % (N["X"], len(N["C"]), n))
         return None, None, fnd, info
